@@ -911,6 +911,10 @@ pub enum UnixError {
 
 impl UnixError {
     fn last() -> UnixError {
+        // verif hook H1: same value, without building an io::Error (recursive drop glue under Kani)
+        #[cfg(kani)]
+        return UnixError::Errno(unsafe { *libc::__errno_location() });
+        #[cfg(not(kani))]
         UnixError::Errno(io::Error::last_os_error().raw_os_error().unwrap())
     }
 
@@ -1286,4 +1290,43 @@ struct cmsghdr {
 struct linger {
     l_onoff: c_int,
     l_linger: c_int,
+}
+
+// verif hook H3: names for otherwise private items, only under the verification cfgs.
+#[cfg(any(kani, ipc_channel_verif))]
+pub mod verif_hooks {
+    use super::*;
+    pub fn opaque_from_fd(fd: c_int) -> OsOpaqueIpcChannel {
+        OsOpaqueIpcChannel::from_fd(fd)
+    }
+    pub fn fragment_size(sendbuf_size: usize) -> usize {
+        OsIpcSender::fragment_size(sendbuf_size)
+    }
+    pub fn first_fragment_size(sendbuf_size: usize) -> usize {
+        OsIpcSender::first_fragment_size(sendbuf_size)
+    }
+    pub fn cmsg_align(length: usize) -> usize {
+        CMSG_ALIGN(length)
+    }
+    pub fn cmsg_len(length: usize) -> usize {
+        CMSG_LEN(length)
+    }
+    pub fn cmsg_space(length: usize) -> usize {
+        CMSG_SPACE(length)
+    }
+    pub fn s_issock(mode: u32) -> bool {
+        S_ISSOCK(mode as mode_t)
+    }
+    pub fn sender_fd(sender: &OsIpcSender) -> c_int {
+        sender.fd.0
+    }
+    pub fn receiver_fd(receiver: &OsIpcReceiver) -> c_int {
+        receiver.fd.get()
+    }
+    pub fn opaque_fd(channel: &OsOpaqueIpcChannel) -> c_int {
+        channel.fd
+    }
+    pub fn shared_memory_fd(region: &OsIpcSharedMemory) -> c_int {
+        region.store.fd()
+    }
 }
